@@ -71,11 +71,13 @@ define_precedence! {
         Modulo: modulo,
     }
 
-    // Precedence 5 (highest)
+    // Precedence 5: power
     precedence 5, Right => {
         Power: power,
     }
-    precedence 5, Left => {
+
+    // Precedence 6 (highest): coalesce
+    precedence 6, Left => {
         Coalesce: coalesce,
     }
 }
